@@ -75,6 +75,12 @@ func vRaceHandlers() *verifHandlers {
 			if atomic.LoadInt32(&e.yieldOn) == 0 {
 				return
 			}
+			if (name == "abaco.block.assemble" || name == "lancero.block.assemble") && e.rnd()%8 == 0 {
+				// now and then block assembly falls a whole read period behind, so that the reader's next tick runs beside it
+				time.Sleep(12 * time.Millisecond)
+				atomic.AddInt64(e.count("yields"), 1)
+				return
+			}
 			switch r := e.rnd() % 20; {
 			case r < 8:
 			case r < 16:
